@@ -188,6 +188,7 @@ func (p c01) Run(c *core.Ctx) {
 			nm := sc.Nodes[c.Rng.Intn(len(sc.Nodes))].DisplayName()
 			pl := []world.SubPlan{{Early: true}, {Early: true}, {After: true}, {Before: true}, {Early: true, After: true}, {Early: true, Before: true}, {Early: true, After: true, Same: true}}[c.Rng.Intn(7)]
 			pl.SameType = sameType
+			pl.NamedCopy = sameType && c.Rng.Intn(2) == 0 // (takes effect for unnamed components only)
 			plan[nm] = pl
 		}
 		if c.Rng.Intn(4) == 0 {
